@@ -250,6 +250,18 @@ def run_case(case):
         if img.shape != frame.shape:
             bad("shape", f"image shape {img.shape} != signal shape {frame.shape}")
             continue
+        # history: the same conversion once more on the same detector (a second readout / second run in the same
+        # process) must give the same image - converters are functions of (signal, settings) only
+        try:
+            with np.errstate(all="ignore"):
+                img_again = run_model(det, variant, frame, bits)
+        except Exception as e:  # noqa: BLE001
+            bad("second-call-raised", f"second call on the same input raised {type(e).__name__}: {str(e)[:200]}")
+            continue
+        if img_again.dtype != img.dtype or not np.array_equal(img_again, img):
+            j = int(np.nonzero(img_again.reshape(-1) != img.reshape(-1))[0][0])
+            bad("second-call-differs", f"the second conversion of the same frame differs from the first, e.g. pixel {j}: "
+                f"{img.reshape(-1)[j]} then {img_again.reshape(-1)[j]}")
         y = img.reshape(-1)[back]
         outs[variant] = (y, img.dtype)
         check_codes(model, dt_arg, bits, lo, hi, xs, y, img.dtype, bad)
